@@ -764,7 +764,8 @@ class VacancyMediated(object):
 
         self.thermo.generate(Nthermo, originstates=False)
         self.kinetic.generate(Nthermo + 1, originstates=True)  # now include origin states (for removal)
-        self.vkinetic.generate(self.kinetic)
+        # kinetic was regenerated in place, so rebuild the vector stars from scratch
+        self.vkinetic = stars.VectorStarSet(self.kinetic)
         # TODO: check the GF calculator against the range in GFstarset to make sure its adequate
         self.GFexpansion, self.GFstarset = self.vkinetic.GFexpansion()
 
